@@ -28,9 +28,62 @@ def c01_random(ctx, n_core, n_ext):
     return hs
 
 
+TCFG = "SPECIFICATION %s\nCONSTANTS\n    MaxCalls = %d\nINVARIANTS\n    %s\nCHECK_DEADLOCK FALSE\n"
+
+
+def tracker_conformance(ctx):
+    """The dirty-set computation partial syncs rest on: Tracker.tla model-checked, TLC-proposed call sequences replayed on the
+    real tracker, every answer compared by TLC (TraceTracker.tla)."""
+    import json, os, re
+    core.build_harness(ctx, ["trackx"])
+    core.tlc_design(ctx, "design-tracker", "Tracker", None, cfgtext=TCFG % ("Spec", 3, "DirtyClosed\n    DirtyComplete\n    Forgotten\n    NoCollateral"),
+                    workers=core.NCPU, timeout=1800)
+    seqs, seen = [], set()
+    runs = [dict(cfgtext=TCFG % ("Spec", 2, "Emit"), workers=1, timeout=900)]
+    for s in range(1 if ctx.quick() else 6):
+        runs.append(dict(cfgtext=TCFG % ("Spec", 7, "Emit"), workers=1, timeout=900, simulate="num=%d" % (150 if ctx.quick() else 800), depth=9,
+                         extra=["-seed", str(ctx.seed * 10 + s)]))
+    for i, kw in enumerate(runs):
+        r = core.tlc(ctx, "gen-tracker-%d" % i, "Tracker", None, **kw)
+        if r["rc"] != 0:
+            raise core.Undecided("tracker sequence generation failed:\n" + r["out"][-2000:])
+        for t in re.findall(r'<<"BEHAVIOUR", "(.*)">>', r["out"]):
+            t = json.loads('"' + t + '"')
+            if t not in seen:
+                seen.add(t)
+                seqs.append(json.loads(t))
+    if len(seqs) < 3000:
+        raise core.Undecided("TLC proposed only %d tracker call sequences" % len(seqs))
+    inp, out = ctx.path("trk", "in.json"), ctx.path("trk", "trace.ndjson")
+    json.dump(seqs, open(inp, "w"))
+    core.run([os.path.join(ctx.bindir, "trackx"), "-in", inp, "-out", out], timeout=900, env=dict(VERIF_REPO=core.REPO))
+    n = core.count_lines(out)
+    r = core.tlc(ctx, "judge-tracker", "TraceTracker", None, cfgtext=TCFG % ("TraceSpec", 0, "Result"), workers=1, timeout=1800, files={out: "trace.ndjson"})
+    m = re.findall(r'<<"RESULT", "(.*)">>', r["out"])
+    if r["rc"] != 0 or not m:
+        raise core.Undecided("tracker trace validation did not complete:\n" + r["out"][-2000:])
+    res = json.loads(json.loads('"' + m[-1] + '"'))
+    if res["n"] != n:
+        raise core.Undecided("tracker trace validation consumed %d of %d lines" % (res["n"], n))
+    ctx.trace_events += n
+    ctx.traces_validated += len(seqs)
+    done = set()
+    for b in sorted(res["bad"], key=lambda b: (b["call"], b["id"])):
+        sig = "Tracker:" + b["inv"]
+        if sig in done:
+            continue
+        done.add(sig)
+        sf = ctx.path("viol", b["id"] + ".tracker.json")
+        json.dump([seqs[int(b["id"][1:])][:b["call"] + 1]], open(sf, "w"), indent=1)
+        d = core.save_replay(ctx, sig, [sf], dict(invariant=b["inv"], got=b["got"], want=b["want"], how="harness/cmd/trackx -in <tracker.json>"))
+        core.classify(ctx, sig, "%s: the tracker answers %s to call %d of sequence %s, the links say %s" % (b["inv"], b["got"], b["call"], b["id"], b["want"]), d)
+    return len(seqs)
+
+
 def run(ctx):
     core.build_harness(ctx, ["ctl"])
     ctl.design(ctx)
+    ntrk = tracker_conformance(ctx)
     q = ctx.quick()
     hs = ctl.tlc_histories(ctx, 500 if q else 8000, maxops=3, maxbatches=3, tag="sim",
                            opts=[dict(shards=0, watchwithoutclass=True), dict(shards=3, watchwithoutclass=True)])
@@ -48,7 +101,7 @@ def run(ctx):
     sample = [dict(history=h["id"], batches=[[o["kind"] + ":" + o["name"] + (":del" if o.get("del") else ":" + str(o.get("tmpl")))
                                                for o in st["ops"]] for st in h["steps"]]) for h in hs[:2] + hs[-1:]]
     core.write_evidence(ctx, sample, extra=dict(
-        histories=len(hs), quiescent_points=len(states), core_points_checked_against_FullModel=sum(1 for e in states if e["core"]),
+        histories=len(hs), tracker_call_sequences=ntrk, quiescent_points=len(states), core_points_checked_against_FullModel=sum(1 for e in states if e["core"]),
         partial_syncs=sum(1 for e in states if e["step"] > 0), nondeterministic_points_skipped=nondet,
         drift=bool(res["drift"]), drift_points=len(res["drift"]),
         bounds="TLC: 3 ingress slots x 12 templates, 2 services x 4 endpoint sets, 2 secrets x 4 values, <=3 events/batch, <=3 batches "
